@@ -57,7 +57,7 @@ _CASE = dict(WORDS)
 # words by Unicode case class: a letter without case (CJK), a cased character that is not a letter (small roman
 # numeral, feminine ordinal), a title-case letter, a caseless digit-like character; judged by the transcription, whose
 # rule is the implementation's documented one (first letter at depth 0: upper case if isupper(), else lower case)
-SIGMA_CLASS = ["AA", "bb", "\u4e2d", "\u2177", "\u01c5", "\xaa", " ", ",", "{\\'1}X", "{\\'\u4e2d}x"]  # (the last two: special characters holding a digit / a letter without case)
+SIGMA_CLASS = ["AA", "bb", "\u4e2d", "\u2177", "\u01c5", "\xaa", " ", ",", "{\\'1}X", "{\\'\u4e2d}x", "{\\'{\\i}}", "{\\'{\\I}}x"]  # (the last four: special characters holding a digit / a letter without case / their first letter as a control word in a nested group)
 
 
 def bounds(tier):
